@@ -424,6 +424,25 @@ def run_harness_parallel(exe, lines, jobs=None):
     return out, crashes
 
 
+LIFETIME_KEYS = ("lifetime-", "leak", "destruction:", "sanitizer")
+
+
+def lifetime_error_agreed(mo, ho, key):
+    """the model stops at the first lifetime error (ERR:<kind> after k records);
+    the implementation keeps running and shows it as a Tracked flag, a leak,
+    objects left alive or a sanitizer report.  They agree when the records
+    before the error are identical and the oracle reports a lifetime violation."""
+    recs = mo.split(" | ")
+    if not recs[-1].startswith("ERR:") or recs[-1] in ("ERR:BadRange",):
+        return False
+    if not key or not any(t in key for t in LIFETIME_KEYS):
+        return False
+    if ho is None or ho.startswith("CRASH"):
+        return True
+    hrecs = ho.split(" | ")
+    return hrecs[:len(recs) - 1] == recs[:-1]
+
+
 def shrink(exe, T, S, ops, key):
     """drop ops while the same failure key persists"""
     cur = list(ops)
@@ -568,7 +587,7 @@ def run(ck):
                                   "how": "echo '%s' | <harness h_smallvec>   (ops: see harness/h_smallvec.cc)" % sl})
             else:
                 ck.add_violation(key, what, {"case": lines[k]})
-        if ho != mo:
+        if ho != mo and not lifetime_error_agreed(mo, ho, key):
             ck.add_diff({"case": lines[k]}, mo, ho)
     ck.coverage["ops"] = hist
     ck.coverage["element_types"] = "int, double, std::string, Tracked"
